@@ -20,6 +20,7 @@ type zvSelPD struct {
 	Static bool   `json:"static,omitempty"`
 	LP     uint32 `json:"local_pref"`
 	ASLen  int    `json:"as_path_len"`
+	NAS    int    `json:"neighbor_as"` // first AS of the AS_PATH is 65000 + 100*NAS
 	Origin uint8  `json:"origin"`
 	MED    uint32 `json:"med"`
 	EBGP   bool   `json:"ebgp"`
@@ -38,8 +39,8 @@ func (d zvSelPD) String() string {
 	if d.CL >= 0 {
 		cl = fmt.Sprintf("len%d", d.CL)
 	}
-	return fmt.Sprintf("bgp{lp=%d aslen=%d origin=%d med=%d ebgp=%v id=%d originator=%d cluster_list=%s peer=.%d nh=.%d}",
-		d.LP, d.ASLen, d.Origin, d.MED, d.EBGP, d.ID, d.Orig, cl, d.Peer, d.NH)
+	return fmt.Sprintf("bgp{lp=%d aslen=%d neighbor_as=%d origin=%d med=%d ebgp=%v id=%d originator=%d cluster_list=%s peer=.%d nh=.%d}",
+		d.LP, d.ASLen, 65000+100*d.NAS, d.Origin, d.MED, d.EBGP, d.ID, d.Orig, cl, d.Peer, d.NH)
 }
 
 // path builds a fresh real path object.
@@ -49,8 +50,9 @@ func (d zvSelPD) path() *route.Path {
 	}
 	asns := make([]uint32, d.ASLen)
 	for i := range asns {
-		asns[i] = 65000 + uint32(i)
+		asns[i] = 64900 + uint32(i)
 	}
+	asns[0] = 65000 + 100*uint32(d.NAS) // neighbour AS
 	asp := types.NewASPath(asns)
 	bp := &route.BGPPath{
 		BGPPathA: &route.BGPPathA{
@@ -148,29 +150,37 @@ func zvSelRef(a, b zvSelPD) (int, string) {
 
 // zvSelDomain enumerates the BGP path domain D.
 //
-//	full: LOCAL_PREF{100,200} x AS_PATH length{1,2} x ORIGIN{0,1} x MED{0,10} x eBGP{f,t}
-//	      x BGP-ID{1,2} x ORIGINATOR_ID{absent,1,3} x CLUSTER_LIST{absent,empty,[x],[x,y]}
-//	      x peer{.1,.2} x next hop{.1,.2}                                  = 3072 paths
+//	full: LOCAL_PREF{100,200} x AS_PATH length{1,2} x neighbour AS{65000,65100} x ORIGIN{0,1}
+//	      x MED{0,10} x eBGP{f,t} x BGP-ID{1,2} x ORIGINATOR_ID{absent,1,3}
+//	      x CLUSTER_LIST{absent,empty,[x],[x,y]} x peer{.1,.2} x next hop{.1,.2}   = 6144 paths
+//
+// The neighbour AS is not looked at by the reference (MED is compared across
+// all neighbour ASes), it is in the domain so that this is exercised.
 //
 // The sub-domains fix some of the early attributes (they then never decide)
 // but keep every late step two-valued, so ties survive until the last steps.
 type zvSelDomSpec struct {
-	LP, ASLen, Origin, MED []int
-	EBGP                   []bool
-	ID, Orig               []uint32
-	CL                     []int
-	Peer, NH               []uint8
+	LP, ASLen, NAS, Origin, MED []int
+	EBGP                        []bool
+	ID, Orig                    []uint32
+	CL                          []int
+	Peer, NH                    []uint8
 }
 
 var zvSelFull = zvSelDomSpec{
-	LP: []int{100, 200}, ASLen: []int{1, 2}, Origin: []int{0, 1}, MED: []int{0, 10}, EBGP: []bool{false, true},
+	LP: []int{100, 200}, ASLen: []int{1, 2}, NAS: []int{0, 1}, Origin: []int{0, 1}, MED: []int{0, 10}, EBGP: []bool{false, true},
 	ID: []uint32{1, 2}, Orig: []uint32{0, 1, 3}, CL: []int{-1, 0, 1, 2}, Peer: []uint8{1, 2}, NH: []uint8{1, 2},
 }
 
 func (s zvSelDomSpec) enumerate() []zvSelPD {
 	var out []zvSelPD
+	nas := s.NAS
+	if len(nas) == 0 {
+		nas = []int{0}
+	}
 	for _, lp := range s.LP {
-		for _, al := range s.ASLen {
+		for _, alna := range zvSelCross(s.ASLen, nas) {
+			al, na := alna[0], alna[1]
 			for _, or := range s.Origin {
 				for _, med := range s.MED {
 					for _, eb := range s.EBGP {
@@ -179,7 +189,7 @@ func (s zvSelDomSpec) enumerate() []zvSelPD {
 								for _, cl := range s.CL {
 									for _, pe := range s.Peer {
 										for _, nh := range s.NH {
-											out = append(out, zvSelPD{LP: uint32(lp), ASLen: al, Origin: uint8(or), MED: uint32(med), EBGP: eb, ID: id, Orig: og, CL: cl, Peer: pe, NH: nh})
+											out = append(out, zvSelPD{LP: uint32(lp), ASLen: al, NAS: na, Origin: uint8(or), MED: uint32(med), EBGP: eb, ID: id, Orig: og, CL: cl, Peer: pe, NH: nh})
 										}
 									}
 								}
@@ -188,6 +198,16 @@ func (s zvSelDomSpec) enumerate() []zvSelPD {
 					}
 				}
 			}
+		}
+	}
+	return out
+}
+
+func zvSelCross(a, b []int) [][2]int {
+	var out [][2]int
+	for _, x := range a {
+		for _, y := range b {
+			out = append(out, [2]int{x, y})
 		}
 	}
 	return out
